@@ -101,6 +101,8 @@ BUILDERS = [
     ('eth-frame', 14, lambda e, raw: ('', 'eth::frame("|000000000001|", "|000000000002|", %s);' % e)),
     ('ip-datagram', 34, lambda e, raw: ('', 'ipv4::datagram(1.2.3.4, 6.7.8.9, proto: 200, %s);' % e)),
     ('frag-datagram', 34, lambda e, raw: ('let g = ipv4::frag(1.2.3.4, 6.7.8.9, %s);' % e, 'g.datagram();')),
+    ('frag-tail', 34, lambda e, raw: ('let g = ipv4::frag(1.2.3.4, 6.7.8.9, %s);' % e, 'g.tail(0);')),
+    ('frag-fragment', 34, lambda e, raw: ('let g = ipv4::frag(1.2.3.4, 6.7.8.9, %s);' % e, 'g.fragment(0, 8191);')),
     ('vxlan', 14 + 20 + 8 + 8 + 14, lambda e, raw: ('let v = vxlan::session(1.1.1.1:1, 2.2.2.2:4789);', 'v.dgram(eth::frame("|000000000001|", "|000000000002|", %s));' % e)),
     ('gre', 14 + 20 + 4 + 14, lambda e, raw: ('let v = gre::session(1.1.1.1, 2.2.2.2, 0x6558);', 'v.encap(eth::frame("|000000000001|", "|000000000002|", %s));' % e)),
     ('tls-in-tcp', 54 + 5, lambda e, raw: ('let f = ipv4::tcp::flow(1.2.3.4:5, 6.7.8.9:443);', 'f.client_message(send_ack: false, tls::message(%s));' % e)),
@@ -117,6 +119,7 @@ def campaign(c):
         name, hdr, mk = BUILDERS[i % len(BUILDERS)]
         b = pick_bytes(r, 3000 if c.quick else 20000)
         if name in ('tcp-msg',) and i % 31 == 0 and not c.quick: b = r.bytes(65535 - 40)
+        if name in ('frag-tail', 'frag-fragment', 'frag-datagram') and i % 3 == 0: b = r.bytes(r.choice([8191, 8192, 9000, 16384, 20000]))
         lets = []
         e = spell(r, b, lets)
         decl, stmt = mk(e, False)
